@@ -261,6 +261,8 @@ def run(ctx):
     check_parallel_lists(ctx)
     check_parse_before_back(ctx)
     check_counted_fill(ctx)
+    ctx.rule("R10", "the text of a LoadError is `message (file:line)` (composition evaluated)", "errors that carry the file object print without the file name or the line number")
+    check_message_composition(ctx, "R10")
 
 
 def _outcomes(stmts):
@@ -599,3 +601,84 @@ def check_validate_shape(ctx, rid):
     rs = [n for n in val.own_nodes() if isinstance(n, ast.Raise)]
     if not rs or not all(raises_class(r) in ("TypeError", "ValueError") for r in rs):
         ctx.violate(rid, "validate_shape does not raise TypeError on a mismatch", val, val.node, construct="validator raise")
+
+
+def check_message_composition(ctx, rid):
+    """The text of a LoadError names the file and, when known, the line: evaluated.
+
+    `_interpret_file_lineno` is evaluated on every kind of `file` argument the library passes (a name, a Path, the
+    LineIterator, an open text file, nothing) with and without an explicit line number, `_format_file_message` on the
+    three combinations of its arguments, and the constructor / `__str__` of BaseFileError on top of them.  Every rule
+    that checks "the error carries the file" relies on this composition."""
+    from ..accessors import AccessorEval, ExtObj, Raised, Rec
+    from ..symarr import NotSymbolic
+
+    prog = ctx.prog
+    um = prog.module("iodata.utils")
+    interp = prog.funcs.get("iodata.utils._interpret_file_lineno")
+    fmt = prog.funcs.get("iodata.utils._format_file_message")
+    base = prog.cls("iodata.utils.BaseFileError")
+    licls = prog.cls("iodata.utils.LineIterator")
+    if interp is None or fmt is None:
+        raise AnalysisError("iodata.utils: _interpret_file_lineno / _format_file_message not found")
+
+    def run(fn, args):
+        ev = AccessorEval(prog, licls)
+        ev.module = um
+        try:
+            return ev.run_free(fn, args, {})
+        except Raised as exc:
+            return ("raises", exc.args[0])
+        except NotSymbolic as exc:
+            raise AnalysisError(f"{fn.qualname} is outside the evaluation whitelist: {exc}") from exc
+
+    lit = lambda: Rec(licls, filename="FILE", lineno=7, stack=[], fh=None)
+    rows = [
+        ("a file name", lambda: "FILE", None, ("FILE", None)),
+        ("a file name and a line number", lambda: "FILE", 3, ("FILE", 3)),
+        ("a Path", lambda: ExtObj("pathlib.Path", text="FILE"), None, ("FILE", None)),
+        ("the line iterator", lit, None, ("FILE", 7)),
+        ("the line iterator and an explicit line number", lit, 3, ("FILE", 3)),
+        ("an open text file", lambda: ExtObj("io.TextIOBase", name="FILE"), None, ("FILE", None)),
+        ("nothing", lambda: None, None, (None, None)),
+        ("a line number without a file", lambda: None, 3, ("raises", "TypeError")),
+    ]
+    bad = None
+    for label, mk, lineno, want in rows:
+        got = run(interp, [mk(), lineno])
+        got = tuple(got) if isinstance(got, (tuple, list)) else got
+        if got != want:
+            bad = f"_interpret_file_lineno given {label}: {got!r}, expected {want!r}"
+            break
+    if bad is None:
+        for args, want in ((["m", None, None], "m"), (["m", "FILE", None], "m (FILE)"), (["m", "FILE", 7], "m (FILE:7)"), (["m", None, 7], "m")):
+            got = run(fmt, args)
+            if got != want:
+                bad = f"_format_file_message{tuple(args)!r} gives {got!r}, expected {want!r}"
+                break
+    if bad:
+        ctx.violate(rid, bad + ": the message of a LoadError no longer names the file / the last line read", interp if "_interpret" in bad else fmt, (interp if "_interpret" in bad else fmt).node, construct=bad[:170])
+    else:
+        ctx.ok(rid, f"_interpret_file_lineno on {len(rows)} kinds of file argument and _format_file_message on 4 argument combinations give `message (file:line)`", f"{um.relpath}:{interp.lineno}")
+    # the exception classes use exactly this composition and no subclass overrides it
+    init, strm = base.methods.get("__init__"), base.methods.get("__str__")
+    okc = True
+    if init is None or not any(isinstance(x, ast.Call) and isinstance(x.func, ast.Name) and x.func.id == interp.name and [src_of(a) for a in x.args] == [init.posparams[2], init.posparams[3]] for x in init.own_nodes()):
+        okc = False
+        ctx.violate(rid, "BaseFileError.__init__ does not pass its file and lineno arguments to _interpret_file_lineno", relpath=um.relpath, function=base.qualname, node=base.node, construct="BaseFileError.__init__ composition")
+    elif not any(isinstance(x, ast.Assign) and isinstance(x.targets[0], ast.Tuple) and [src_of(t) for t in x.targets[0].elts] == ["self.filename", "self.lineno"] for x in init.own_nodes()):
+        okc = False
+        ctx.violate(rid, "BaseFileError.__init__ does not store the interpreted (filename, lineno) in self.filename, self.lineno", relpath=um.relpath, function=base.qualname, node=base.node, construct="BaseFileError.__init__ stores")
+    rets = [x for x in (strm.own_nodes() if strm is not None else []) if isinstance(x, ast.Return)]
+    if strm is None or len(rets) != 1 or not (isinstance(rets[0].value, ast.Call) and isinstance(rets[0].value.func, ast.Name) and rets[0].value.func.id == fmt.name and [src_of(a) for a in rets[0].value.args[1:]] == ["self.filename", "self.lineno"] and "super().__str__()" in src_of(rets[0].value.args[0])):
+        okc = False
+        ctx.violate(rid, "BaseFileError.__str__ is not _format_file_message(super().__str__(), self.filename, self.lineno)", relpath=um.relpath, function=base.qualname, node=base.node, construct="BaseFileError.__str__ composition")
+    for ci in prog.classes.values() if hasattr(prog, "classes") else []:
+        pass
+    subs = [c for c in um.classes.values() if c is not base and any(src_of(b) in ("BaseFileError",) for b in c.node.bases)] if hasattr(um, "classes") else []
+    for c in subs:
+        if "__str__" in c.methods or "__init__" in c.methods:
+            okc = False
+            ctx.violate(rid, f"{c.name} overrides {'__str__' if '__str__' in c.methods else '__init__'} of BaseFileError: its messages are composed differently", relpath=um.relpath, function=c.qualname, node=c.node, construct=f"{c.name} overrides composition")
+    if okc:
+        ctx.ok(rid, f"BaseFileError composes its text from these two functions; {len(subs)} subclasses inherit it unchanged", f"{um.relpath}:{base.node.lineno}")
